@@ -392,7 +392,11 @@ def run(tier, seed):
     ctx = multiprocessing.get_context("fork")
     with ProcessPoolExecutor(max_workers=check.NPROC, mp_context=ctx) as ex:
         futs = [ex.submit(_worker, (seed0 + i, tier)) for i in range(n)]
+        wall = float(os.environ.get("PROVSIM_WALL", wall))
         for f in futs:
+            if time.time() - t0 > wall and f.cancel():
+                agg["not_run_wall_cap"] = agg.get("not_run_wall_cap", 0) + 1
+                continue  # wall cap reached: states not yet started are dropped, never a pass/fail
             try:
                 st = f.result(timeout=max(5.0, wall * 3 - (time.time() - t0)))
             except Exception as e:
@@ -444,6 +448,7 @@ def run(tier, seed):
             "evaluations": agg["cells"], "distinct_nontrivial": len(distinct), "rule": C16.rule,
             "samples": samples or [{"note": "none"}],
             "states": agg["states"], "nontrivial_states": agg["nontrivial_states"],
+            "states_not_run_because_of_the_wall_cap": agg.get("not_run_wall_cap", 0),
             "cells_by_label": agg["labels"], "platform_encodings": agg["encodings"],
             "formats_skipped_because_baseline_cell_failed": agg["skipped_formats"],
             "cells_per_hour": int(agg["cells"] / max(wall_s, 1e-9) * 3600),
